@@ -6,6 +6,12 @@ use std::time::Instant;
 
 use serde_json::{json, Value};
 
+/// Root of the verification tree (the directory holding `check`); VERIF_ROOT overrides /verif so that a
+/// snapshot of the tree can run beside the live one.
+pub fn root() -> PathBuf {
+    PathBuf::from(std::env::var("VERIF_ROOT").unwrap_or_else(|_| "/verif".to_string()))
+}
+
 pub struct Args {
     pub prop: String,
     pub seed: u64,
@@ -25,7 +31,7 @@ impl Args {
             tier: "quick".into(),
             cases: 0,
             evidence: None,
-            replay_dir: PathBuf::from("/verif/work/replays"),
+            replay_dir: root().join("work/replays"),
             replay: None,
             extra: BTreeMap::new(),
         };
